@@ -187,7 +187,7 @@ class Ctx:
                 wc = "unclassified"
         return self._record(name, "refuted", backend, time.time() - t0, detail=why, model=model, replay=rep, witness_class=wc, shape=shape)
 
-    def _numeric_cex(self, an, bn, pcn, env0=None, tries=6):
+    def _numeric_cex(self, an, bn, pcn, env0=None, tries=16):
         vars_ = sorted(E.free_vars(an, bn, *pcn), key=lambda v: v.val)
         if any(n.op == "uf" for n in E.postorder([an, bn])):
             return None
@@ -199,7 +199,7 @@ class Ctx:
                 elif v.sort == E.I:
                     env[v.val] = self.rng.randint(0, 7)
                 else:
-                    env[v.val] = Fraction(self.rng.randint(5, 400), 97) * (1 if (env0 or {}).get("_positive") or self.rng.random() < 0.7 else -1)
+                    env[v.val] = Fraction(self.rng.randint(5, 400), 97) * (1 if (env0 or {}).get("_positive") or k < tries // 2 or self.rng.random() < 0.7 else -1)
             if env0:
                 env.update({k2: v2 for k2, v2 in env0.items() if not k2.startswith("_")})
             try:
